@@ -253,19 +253,21 @@ async fn restore_file(
         source,
     })?;
 
-    // Restore permissions only if there are mode bits stored in the archive
-    if let Err(source) = source_entry.unix_mode().set_permissions(&path) {
-        monitor.error(Error::RestorePermissions {
-            path: path.clone(),
-            source,
-        });
-    }
-
     // Restore ownership if possible.
     // TODO: Stats and warnings if a user or group is specified in the index but
     // does not exist on the local system.
     if let Err(source) = source_entry.owner().set_owner(&path) {
         monitor.error(Error::RestoreOwnership {
+            path: path.clone(),
+            source,
+        });
+    }
+
+    // Restore permissions only if there are mode bits stored in the archive.
+    // This comes after the ownership change, because chown clears the setuid and
+    // setgid bits of a regular file.
+    if let Err(source) = source_entry.unix_mode().set_permissions(&path) {
+        monitor.error(Error::RestorePermissions {
             path: path.clone(),
             source,
         });
